@@ -171,7 +171,7 @@ func observe(c *stree.Cursor[int], r *ref, pos int, what string) *mc.Failure {
 	}
 	lo, hi := r.min(pos), r.max(pos)
 	var got []int
-	c.Inorder(func(k int) bool { got = append(got, k); return true })
+	c.Inorder(func(k int) bool { got = append(got, k); return len(got) < 1<<16 }) // bounded: an iteration that never ends is reported, not accumulated
 	if len(got) != hi-lo+1 {
 		return mc.Failf(0, "%s at key %d: Inorder=%v want %d..%d", what, pos, got, lo, hi)
 	}
